@@ -4,9 +4,15 @@ package main
 // (0 inconclusive, 0 unsupported) on the unchanged tree.
 
 var commonAssume = []string{
-	"bufio.Scanner line splitting (ScanLines: split at \\n, one trailing \\r dropped, ErrTooLong over 64 KiB) is trusted, not executed",
+	"bufio.Scanner line splitting (ScanLines: split at \\n, one trailing \\r dropped, ErrTooLong over 64 KiB) is trusted, not executed; item texts do not end in \\r",
 	"fmt.Fprint/Sprintf modelled as concatenation + one Write on the destination",
-	"goroutine-free code paths only unless stated; no memory model",
+	"no memory model (data races are outside every claim)",
+}
+
+const parseContract = "Parser.Parse replaced by its contract at tree level (item row -> depth+1,text; blank -> ErrBlankLine; no bullet / bad indentation -> ErrIncorrectFormat; empty text -> ErrEmptyText); the contract is itself discharged at byte level on the real parser by the L-parse jobs of C15"
+
+func gj(name, entry string, n int, expect ...string) Job {
+	return Job{Name: name, Pkg: "gtree", Entry: entry, N: n, Expect: expect}
 }
 
 func allChecks() []*Check {
@@ -15,15 +21,27 @@ func allChecks() []*Check {
 			ID:    "C01",
 			Files: []string{"gtree/common.go", "gtree/c01.go"},
 			Quick: []Job{
-				{Name: "C01.tree.n5", Pkg: "gtree", Entry: "VerifC01", N: 5, Expect: []string{"C01.nil", "C01.out", "C01.end"}},
-				{Name: "C01.blank.n3", Pkg: "gtree", Entry: "VerifC01Blank", N: 3, Expect: []string{"C01.blank.nil", "C01.blank.out", "C01.blank.end"}},
+				gj("C01.tree.n6", "VerifC01", 6, "C01.nil", "C01.out", "C01.end"),
+				gj("C01.blank.n3", "VerifC01Blank", 3, "C01.blank.nil", "C01.blank.out", "C01.blank.end"),
 			},
 			Thorough: []Job{
-				{Name: "C01.tree.n7", Pkg: "gtree", Entry: "VerifC01", N: 7, Expect: []string{"C01.nil", "C01.out", "C01.end"}},
-				{Name: "C01.blank.n4", Pkg: "gtree", Entry: "VerifC01Blank", N: 4, Expect: []string{"C01.blank.nil", "C01.blank.out", "C01.blank.end"}},
+				gj("C01.tree.n8", "VerifC01", 8, "C01.nil", "C01.out", "C01.end"),
+				gj("C01.blank.n4", "VerifC01Blank", 4, "C01.blank.nil", "C01.blank.out", "C01.blank.end"),
 			},
-			Bounds: "forests of N item rows (quick N=5, thorough N=7): every well-formed depth sequence x every pattern of equal sibling names; names and the four branch strings are unconstrained strings of any length; both simple output routes; up to 2 blank rows at any position for N<=3/4. Outside: larger N, massive mode (C10), spellings other than the canonical one (L-parse, C15).",
-			Assume: append([]string{"Parser.Parse replaced by its contract at tree level (row -> depth+1,text); the contract is itself checked at byte level by the L-parse jobs of C15"}, commonAssume...),
+			Bounds: "forests of N item rows (quick N=6, thorough N=8): every well-formed depth sequence x every pattern of equal sibling names; names and the four branch strings are unconstrained strings of any length; both simple output routes; up to 2 blank rows at any position for N=3/4. Outside: larger N, massive mode (C10), spellings other than the canonical one (L-parse, C15).",
+			Assume: append([]string{parseContract}, commonAssume...),
+		},
+		{
+			ID:    "C02",
+			Files: []string{"gtree/common.go", "gtree/c02.go"},
+			Quick: []Job{
+				gj("C02.n5", "VerifC02", 5, "C02.iff/ok", "C02.iff/jump", "C02.iff/noroot", "C02.iff/nobullet", "C02.iff/emptytext", "C02.row/jump", "C02.row/nobullet", "C02.complete/output", "C02.complete/walk"),
+			},
+			Thorough: []Job{
+				gj("C02.n7", "VerifC02", 7, "C02.iff/ok", "C02.iff/jump", "C02.iff/noroot", "C02.iff/nobullet", "C02.iff/emptytext", "C02.row/jump", "C02.row/nobullet", "C02.complete/output", "C02.complete/walk"),
+			},
+			Bounds: "documents of N rows (quick 5, thorough 7): item depths in [0, prev+2] (the first indented row of a document defines the unit, so its depth is 1), at most one row of class no-bullet/empty-text at any position and depth; routes: iterator output, non-iterator output, walk (generate() shared with mkdir/verify). After the first offending row one more row is generated. Outside: several malformed rows, jumps by more than 2 (same code path), massive mode (C10).",
+			Assume: append([]string{parseContract}, commonAssume...),
 		},
 	}
 }
